@@ -25,8 +25,8 @@ type certProbe struct {
 	S string
 }
 
-func (l *certProbe) Configure() interface{}                 { return l }
-func (l *certProbe) CheckApplies(*x509.Certificate) bool    { return true }
+func (l *certProbe) Configure() interface{}              { return l }
+func (l *certProbe) CheckApplies(*x509.Certificate) bool { return true }
 func (l *certProbe) Execute(*x509.Certificate) *lint.LintResult {
 	return &lint.LintResult{Status: lint.Pass, Details: fmt.Sprintf("A=%d;B=%v;S=%s", l.A, l.B, esc(l.S))}
 }
@@ -37,8 +37,8 @@ type crlProbe struct {
 	S string
 }
 
-func (l *crlProbe) Configure() interface{}                  { return l }
-func (l *crlProbe) CheckApplies(*x509.RevocationList) bool   { return true }
+func (l *crlProbe) Configure() interface{}                 { return l }
+func (l *crlProbe) CheckApplies(*x509.RevocationList) bool { return true }
 func (l *crlProbe) Execute(*x509.RevocationList) *lint.LintResult {
 	return &lint.LintResult{Status: lint.Pass, Details: fmt.Sprintf("A=%d;B=%v;S=%s", l.A, l.B, esc(l.S))}
 }
